@@ -8,6 +8,7 @@ pub mod fndrv;
 pub mod tadrv;
 pub mod matrix;
 pub mod twohop;
+pub mod pack;
 pub mod slots {
     include!(concat!(env!("OUT_DIR"), "/slots.rs"));
     pub fn of(name: &str) -> &'static [&'static str] {
